@@ -3,7 +3,7 @@ CONSTANTS
   Sess <- S2
   Menu <- MenuT
   Creates <- CreatesQ
-  Fees <- F01
+  Fees <- F12
   Pre <- PreA
   MaxTime = 5
   MaxLen = 3
